@@ -16,6 +16,11 @@ def main(argv):
         print("proof obligations / correspondence cases that no longer check:")
         for b in body["broken"]:
             print("  -", b.get("kind"), b.get("name"))
+    if "stress" in body:
+        import solvercorr
+        os.makedirs(os.path.join(core.VERIF, "build", "replay"), exist_ok=True)
+        os.chdir(os.path.join(core.VERIF, "build", "replay"))
+        return solvercorr.stress_replay(body)
     if hasattr(mod, "replay"):
         os.makedirs(os.path.join(core.VERIF, "build", "replay"), exist_ok=True)
         os.chdir(os.path.join(core.VERIF, "build", "replay"))
